@@ -2,12 +2,15 @@
 """mkseedtask.py <ID>...: create a scratch worktree /tmp/seed-<ID> of /repo HEAD and write TASK.md (property text only)"""
 import json, os, subprocess, sys
 props = {json.loads(l)["id"]: json.loads(l) for l in open('/verif/properties.jsonl') if l.strip()}
-for pid in sys.argv[1:]:
-    d = '/tmp/seed-' + pid
+for sid in sys.argv[1:]:
+    pid = sid.split('-')[0]
+    second = '-' in sid
+    d = '/tmp/seed-' + sid
     if not os.path.exists(d):
         subprocess.run(['git', '-C', '/repo', 'worktree', 'add', '--detach', d, 'HEAD'], check=True, capture_output=True)
     os.makedirs(d + '/out', exist_ok=True)
     p = props[pid]
+    extra = "5. Do not take the first idea that comes to mind: list three candidate defects in different mechanisms / files that bear on this property, and implement the one that is hardest to notice from the outside (deep in a rarely taken branch, a state left behind after an error path, a second site that must agree with a first)." if second else ""
     open(d + '/TASK.md', 'w').write(f"""# Task: seed a realistic defect that breaks one semantic property of slackhq/nebula
 
 You have your own scratch git worktree of slackhq/nebula (Go, an overlay VPN) at `{d}`. Work ONLY inside that directory.
@@ -35,6 +38,7 @@ A change to nebula's (non-test) source that **breaks this property** while
 4. **needing something specific to manifest**: a particular interleaving of goroutines, a crash or fault at a particular point, a
    multi-step sequence of operations, an unusual input or boundary value, or two cooperating sites that each look fine alone.
    It must NOT be something ordinary use (a plain handshake and a few packets, a normal config load) exposes at once.
+{extra}
 
 Also write a **demonstration**: a Go test (new `_test.go` file(s), or a small program) that FAILS with your change and PASSES on the
 unchanged tree, showing the property being violated at the level of observable behaviour.
